@@ -5,7 +5,10 @@ generators call) is replaced by a recording stand-in for the duration of one cal
 restored in `finally`; the recorded draws are handed to the Lean model, which must
 reproduce the object exactly.  Two draw sources: the real generator under a seed, and a
 collision-heavy dyadic source (few distinct rows) that drives the redraw loop of
-`sptensor.from_function` into its pooling branch.
+`sptensor.from_function` into its pooling branch.  The stand-in honours `low` / `high` /
+`size` (it returns low + (high-low)*u for unit variates u it keeps), so "uniform on [0,1)"
+is asserted on the result of tenrand / sptenrand: the entries are the unit variates
+themselves, all in [0,1), with either draw source.
 """
 from __future__ import annotations
 
@@ -24,13 +27,16 @@ from harness.lib import (Family, Verdict, call, deep_eq, dense_j, drive, jval, k
 RULE = ("dense generators (ones / zeros / rand / from_function / diag) on every shape of order 1..4 with at most "
         "64 cells (thorough; a sample plus fixed shapes in quick) in every shape-argument convention, element "
         "vectors of length 0..5 against shorter / longer / absent shapes; teneye for orders 0..6 and sizes 0..4; "
+        "tenrand / sptenrand values asserted to be the recorded unit variates (in [0,1)) whatever interval the code asks "
+        "np.random.uniform for; "
         "random sparse generators with recorded draws (real seeded and collision-heavy dyadic) for requested "
         "counts 0..size and densities up to 1 on shapes up to 64 cells; aggregating constructor on duplicate-heavy "
         "subscript lists (sorted / reversed / shuffled / grouped) with reducers sum, max, min, prod, counting and "
         "order-sensitive lambdas, inferred / exact / malformed shapes; Kruskal from_function; non-trivial = "
         "accepted and more than one cell; distinct = distinct case hash")
 ASSUMPTIONS = [
-    "np.random.uniform returns values in [0,1); the stand-in draws lie in (0,1) (a value draw of exactly 0.0, "
+    "np.random.uniform(low, high, size) returns low + (high-low)*u with u uniform in [0,1) (the stand-in computes "
+    "exactly that); the stand-in's unit variates lie in (0,1) (a value draw of exactly 0.0, "
     "probability 2^-53, would be stored as an explicit zero by sptenrand)",
     "u*extent is computed exactly by the model and in double precision by the code: for the dyadic stand-in "
     "draws both agree exactly, for real 53-bit draws they agree unless the product rounds up to an integer "
@@ -46,10 +52,17 @@ EXHAUSTIVE = {"quick": False, "thorough": False}
 # recording of np.random.uniform
 # ----------------------------------------------------------------------------------------
 class Recorder:
-    """Stand-in for np.random.uniform.  Delegates size validation to the real function."""
+    """Stand-in for np.random.uniform that honours its arguments: every call draws the UNIT variates u (the
+    real generator under the seed, or the dyadic pool) in the requested `size` (validated by the real
+    function) and returns `low + (high - low) * u`, exactly what numpy computes.  It records, per call,
+    the returned array (`calls`), the unit variates (`units`) and the interval asked for (`args`), so that
+    "uniform on [0,1)" can be asserted on the object that comes out: its values must be the unit variates
+    themselves (hence in [0,1)), not an affine image of them."""
 
     def __init__(self, src, real):
         self.calls = []
+        self.units = []
+        self.args = []
         self.real = real
         self.kind = src["kind"]
         if self.kind == "real":
@@ -69,22 +82,29 @@ class Recorder:
         return self.rng.choice(pool)
 
     def __call__(self, low=0.0, high=1.0, size=None):
-        ref = self.real(low, high, size)
+        lo, hi = float(low), float(high)      # the generators pass scalars; anything else raises here
+        u = self.real(0.0, 1.0, size)          # size validation and (kind "real") the seeded stream
         if self.kind != "real":
-            a = np.asarray(ref, dtype=float)
+            a = np.asarray(u, dtype=float)
             if a.ndim == 2:
                 for k in range(a.shape[0]):
                     a[k, :] = self._row(a.shape[1])
             elif a.ndim == 1:
                 for k in range(a.shape[0]):
                     a[k] = self._row(1)[0]
-            ref = a
+            elif a.ndim == 0:
+                a = np.float64(self._row(1)[0])
+            u = a
+        ref = u if (lo == 0.0 and hi == 1.0) else lo + (hi - lo) * u
+        self.units.append(np.array(u, dtype=float, copy=True))
+        self.args.append((lo, hi))
         self.calls.append(np.array(ref, dtype=float, copy=True))
         return ref
 
 
-def with_recorder(src, fn):
-    """Run fn() with np.random.uniform recorded; returns (call-result, recorded arrays)."""
+def with_recorder(src, fn, full=False):
+    """Run fn() with np.random.uniform recorded; returns (call-result, recorded arrays) and, with `full`,
+    the recorder itself (unit variates and requested intervals per call)."""
     real = np.random.uniform
     rec = Recorder(src, real)
     np.random.uniform = rec
@@ -92,7 +112,14 @@ def with_recorder(src, fn):
         out = call(fn)
     finally:
         np.random.uniform = real
+    if full:
+        return out, rec.calls, rec
     return out, rec.calls
+
+
+def unit_interval(vals):
+    """every value (a canonical number: int, or a string the exact value of a double) lies in [0,1)"""
+    return all(0 <= Fraction(x) < 1 for x in vals)
 
 
 def mat_j(a):
@@ -233,11 +260,12 @@ class DenseGen(Family):
                 extra.append(None)
             elif k == "rand":
                 sa = shape_arg(c["shape"], c["conv"])
-                impl, calls = with_recorder(c["src"], lambda sa=sa: dense_j(ttb.tenrand(sa)))
+                impl, calls, rec = with_recorder(c["src"], lambda sa=sa: dense_j(ttb.tenrand(sa)), full=True)
                 impls.append(impl)
                 draws = jval(calls[0].reshape(-1)) if calls else []
                 reqs.append({"op": "gen_tenrand", "shape": c["shape"], "draws": draws})
-                extra.append(draws)
+                extra.append({"draws": draws, "units": jval(rec.units[0].reshape(-1)) if rec.units else [],
+                              "ncalls": len(calls), "args": list(rec.args)})
             elif k == "fn":
                 sa = shape_arg(c["shape"], c["conv"])
                 fn = self._user_fn(c)
@@ -289,11 +317,15 @@ class DenseGen(Family):
                     if got["shape"] != s or len(got["data"]) != gen.numel(s) or any(x != want for x in got["data"]):
                         what = f"ten{k}{tuple(s)} is not the all-{want} tensor of that shape"
                 elif k == "rand":
-                    fr = [Fraction(x) if not isinstance(x, str) else Fraction(x) for x in got["data"]]
-                    if got["shape"] != s or len(fr) != gen.numel(s) or any(not (0 <= x < 1) for x in fr):
+                    tags.append("src=" + c["src"]["kind"])
+                    if got["shape"] != s or len(got["data"]) != gen.numel(s) or not unit_interval(got["data"]):
                         what = "tenrand entry outside [0,1) or wrong shape"
-                    elif not deep_eq(got["data"], ex):
+                    elif not deep_eq(got["data"], ex["draws"]):
                         what = "tenrand entries are not the draws in first-index-fastest order"
+                    elif ex["ncalls"] == 1 and not deep_eq(got["data"], ex["units"]):
+                        # the generator supplied unit variates u and the code asked for low + (high-low)*u
+                        what = (f"tenrand entries are not uniform on [0,1): they are the unit variates mapped to "
+                                f"[{ex['args'][0][0]:g},{ex['args'][0][1]:g})")
                 elif k == "fn":
                     if got["shape"] != s or not deep_eq(got["data"], ex["data"]):
                         what = "from_function changed the first-index-fastest value order of the produced array"
@@ -552,23 +584,26 @@ class SparseRand(Family):
         def wrapped():
             S = run()
             return {"S": sparse_j(S), "nnz": int(S.nnz), "vshape": list(np.asarray(S.vals).shape)}
-        impl, calls = with_recorder(c["src"], wrapped)
+        impl, calls, rec = with_recorder(c["src"], wrapped, full=True)
+        info = {"units": None, "vargs": None, "sargs": list(rec.args)}
         if c["fn"] == "sptenrand":
             vdraw = calls[-1] if calls else np.zeros((0, 1))
             draws = calls[:-1]
             vals = jval(np.asarray(vdraw).reshape(-1))
+            if calls:
+                info = {"units": jval(rec.units[-1].reshape(-1)), "vargs": rec.args[-1], "sargs": list(rec.args[:-1])}
         else:
             draws = calls
             vals = jval(fvals[-1].reshape(-1)) if fvals else []
-        return impl, draws, vals
+        return impl, draws, vals, info
 
     def evaluate(self, cases):
         impls, reqs, recs = [], [], []
         for c in cases:
-            impl, draws, vals = self._run(c)
+            impl, draws, vals, info = self._run(c)
             # reproducibility under the global seed: the same seed twice gives the identical object
             if c["src"]["kind"] == "real":
-                impl2, _, _ = self._run(c)
+                impl2, _, _, _ = self._run(c)
                 if strip_exc(impl) != strip_exc(impl2):
                     impl = dict(impl, irreproducible=True)
             nz = self._nz(c)
@@ -583,10 +618,10 @@ class SparseRand(Family):
                 impl["ok"]["cnt"] = len(draws)
             impls.append(impl)
             reqs.append(rq)
-            recs.append((draws, vals))
+            recs.append((draws, vals, info))
         models = drive(reqs)
         out = []
-        for c, impl, m, (draws, vals) in zip(cases, impls, models, recs):
+        for c, impl, m, (draws, vals, info) in zip(cases, impls, models, recs):
             s = c["shape"]
             size = gen.numel(s)
             tags = [c["fn"], f"N{len(s)}", "src=" + c["src"]["kind"] + ("-small" if c["src"].get("pool", 99) <= 4 else ""),
@@ -644,6 +679,13 @@ class SparseRand(Family):
                 what = "repeated subscript"
             elif not deep_eq(sorted(svals, key=str), sorted(vals, key=str)):
                 what = "values are not the ones the function returned"
+            elif c["fn"] == "sptenrand" and not unit_interval(svals):
+                what = "value outside [0,1)"
+            elif c["fn"] == "sptenrand" and info["units"] is not None and \
+                    not deep_eq(sorted(svals, key=str), sorted(info["units"], key=str)):
+                # the generator supplied unit variates u and the code asked for low + (high-low)*u
+                what = ("values are not uniform on [0,1): they are the unit variates mapped to "
+                        f"[{info['vargs'][0]:g},{info['vargs'][1]:g})")
             elif c["vals"] != "intz" and any(x == 0 for x in svals):
                 what = "stored zero"
             elif reachable and len(subs) != want:
